@@ -4,22 +4,28 @@
 (* found by the crawls are reported together; with debug=True the Crawl objects are returned as well.        *)
 (*                                                                                                           *)
 (* TLC enumerates the number of routing tables (0..MaxTables), what the crawl of each table finds (a list of *)
-(* distinct values, possibly empty) and the debug flag; Return is the call returning.                        *)
+(* distinct values, possibly empty), the kind of lookup (find_values / find_nodes) and the debug flag;       *)
+(* Return is the call returning.  A node lookup reports the nodes its crawls contacted: here one node per    *)
+(* routing table (named 100 + table index).                                                                  *)
 (*                                                                                                           *)
 (* SAFETY PROPERTY                                                                                           *)
-(*  F1 InvFindAll   the call returns (no exception) exactly the values found by its crawls, table by table,  *)
-(*                  in both modes; with debug=True it hands back one Crawl per routing table                 *)
+(*  F1 InvFindAll   the call returns (no exception) exactly the values found (find_values) / the nodes       *)
+(*                  contacted (find_nodes) by its crawls, table by table, with and without debug; with       *)
+(*                  debug=True it hands back one Crawl per routing table                                     *)
 (*                                                                                                           *)
 (* PinnedDebugMerge = TRUE is the pinned code: its star-argument tuple call only works for one routing table *)
-(* (proposed_fixes/G02-1.diff).                                                                              *)
+(* (proposed_fixes/G02-1.diff).  PinnedDebugNodes = TRUE is the pinned code as well: _find ignores `debug`   *)
+(* for node lookups and find() then takes the node list apart as if it were (values, crawl)                  *)
+(* (proposed_fixes/G02-2.diff).                                                                              *)
 EXTENDS Integers, Sequences, FiniteSets, TLC
 
-CONSTANTS MaxTables, Vals, MaxLen, PinnedDebugMerge
+CONSTANTS MaxTables, Vals, MaxLen, PinnedDebugMerge, PinnedDebugNodes
 
 VARIABLES tables,   \* Seq of value lists: what the crawl of each routing table finds
+          mode,     \* "values" (find_values) | "nodes" (find_nodes)
           debug,
           ret       \* [done, ok, values, ncrawls]
-vars == <<tables, debug, ret>>
+vars == <<tables, mode, debug, ret>>
 
 Range(s) == {s[i] : i \in DOMAIN s}
 Lists == {s \in UNION {[1..k -> Vals] : k \in 0..MaxLen} : \A i, j \in 1..Len(s) : i # j => s[i] # s[j]}
@@ -27,25 +33,31 @@ Lists == {s \in UNION {[1..k -> Vals] : k \in 0..MaxLen} : \A i, j \in 1..Len(s)
 RECURSIVE Concat(_)
 Concat(ss) == IF ss = <<>> THEN <<>> ELSE Head(ss) \o Concat(Tail(ss))
 
+Found == IF mode = "values" THEN Concat(tables) ELSE [i \in 1..Len(tables) |-> 100 + i]
+
 Pending == [done |-> FALSE, ok |-> FALSE, values |-> <<>>, ncrawls |-> 0]
 
 Init == /\ tables \in UNION {[1..k -> Lists] : k \in 0..MaxTables}
+        /\ mode \in {"values", "nodes"}
+        /\ (mode = "nodes" => \A i \in 1..Len(tables) : tables[i] = <<>>)     \* (what is stored does not matter then)
         /\ debug \in BOOLEAN
         /\ ret = Pending
 
 Return == /\ ~ret.done
-          /\ ret' = IF PinnedDebugMerge /\ debug /\ Len(tables) > 1
+          /\ ret' = IF \/ PinnedDebugMerge /\ debug /\ Len(tables) > 1
+                       \/ PinnedDebugNodes /\ debug /\ mode = "nodes" /\ Len(tables) > 0
                     THEN [done |-> TRUE, ok |-> FALSE, values |-> <<>>, ncrawls |-> 0]
-                    ELSE [done |-> TRUE, ok |-> TRUE, values |-> Concat(tables), ncrawls |-> IF debug THEN Len(tables) ELSE 0]
-          /\ UNCHANGED <<tables, debug>>
+                    ELSE [done |-> TRUE, ok |-> TRUE, values |-> Found, ncrawls |-> IF debug THEN Len(tables) ELSE 0]
+          /\ UNCHANGED <<tables, mode, debug>>
 
 Next == Return
 Spec == Init /\ [][Next]_vars
 
 InvFindAll == ret.done =>
                 /\ ret.ok
-                /\ Len(ret.values) = Len(Concat(tables))
-                /\ \A i \in 1..Len(tables) : Range(tables[i]) \subseteq Range(ret.values)
-                /\ Range(ret.values) \subseteq UNION {Range(tables[i]) : i \in 1..Len(tables)}
+                /\ mode = "values" => /\ Len(ret.values) = Len(Concat(tables))
+                                      /\ \A i \in 1..Len(tables) : Range(tables[i]) \subseteq Range(ret.values)
+                                      /\ Range(ret.values) \subseteq UNION {Range(tables[i]) : i \in 1..Len(tables)}
+                /\ mode = "nodes" => ret.values = [i \in 1..Len(tables) |-> 100 + i]
                 /\ (debug => ret.ncrawls = Len(tables))
 =============================================================================
